@@ -205,14 +205,33 @@ def _valgrind(src):
     return bad, p.stderr[:1500]
 
 
+def _copy_family():
+    """C08 on the real CLI: the first program of replay_programs.PROGS in which a mutation leaks between task and
+    spawner (or which crashes), else None."""
+    from . import replay_programs
+    ran = []
+    for name, src, want in replay_programs.PROGS:
+        out, err, rc = abra_cli.run_program(src)
+        ran.append(name)
+        if out != want or rc != 0:
+            return True, dict(program=src, program_name=name, expected=want, real_output=(out + err)[:1200], exit_code=rc,
+                              programs_run=ran, note="each side must print its own unmodified value")
+    return None, dict(note="every task/spawner program printed its own unmodified value", programs_run=ran)
+
+
 def replay(ob):
     if ob.id in ARRAY_IDS:
         out, err, rc = abra_cli.run_program(BOOK_EXAMPLE)
         good = (out == "3\n4\n" and rc == 0)
-        fault = ("panicked" in err) or rc == 101
-        return (True if fault else (False if good else None)), dict(
-            program=BOOK_EXAMPLE, source="book/src/language_reference/tasks_and_channels.md (Capturing values)",
-            expected="3\\n4\\n", real_output=(out + err)[:1200], exit_code=rc)
+        if not good:
+            return True, dict(
+                program=BOOK_EXAMPLE, source="book/src/language_reference/tasks_and_channels.md (Capturing values)",
+                expected="3\\n4\\n", real_output=(out + err)[:1200], exit_code=rc)
+        if ob.id.startswith("C09."):
+            return None, dict(program=BOOK_EXAMPLE, expected="3\\n4\\n", real_output=out, exit_code=rc,
+                              note="the reference's array example runs correctly; no CLI program for an array payload in a channel")
+    if ob.id.startswith("C08.deep_copy.") or ob.id.startswith("C08.spawn."):
+        return _copy_family()
     if ob.id == "C09.chan.write.ownership":
         out, err, rc = abra_cli.run_program(OWNERSHIP)
         extra = dict(program=OWNERSHIP, expected=OWNERSHIP_WANT, real_output=(out + err)[:1200], exit_code=rc)
